@@ -6,6 +6,7 @@
 //  bun  <tree>                                nested bundle built bottom-up + all readers (C08)
 //  pm   <hexmsg>                              rtosc_bundle_p on a plain message (C08)
 //  rt   <hexaddr> <hextags> <args>             RtData::reply / broadcast va-forms (8192-byte stack buffer) (C02)
+//  sub  <cap> <a> <bcd> <efghi>               subtree_serialize of a 3-parameter object into an exact block (C08/C02)
 //  raw  <hexbytes>                            rtosc_message_length / rtosc_valid_message_p on
 //                                             an exact heap copy, accessors if valid (C07)
 //  <args>  = '-' | payload{;payload}   payload = 4:<dec> | 8:<dec> | s:<hex> | b:<len>:<hex|NULL>
@@ -14,6 +15,8 @@
 #include <rtosc/rtosc.h>
 #include <rtosc/arg-val.h>
 #include <rtosc/ports.h>
+#include <rtosc/port-sugar.h>
+#include <rtosc/subtree-serialize.h>
 #include <cstdarg>
 #include <csignal>
 #include <unistd.h>
@@ -371,6 +374,29 @@ static void do_rt(const std::vector<std::string> &f)
     printf("rp=%s bc=%s\n", r.got.c_str(), b.got.c_str());
 }
 
+// ---- subtree_serialize (src/cpp/subtree-serialize.cpp): a bundle of captured replies ----
+struct SubObj { int a; int bcd; int efghi; };
+#define rObject SubObj
+static rtosc::Ports sub_ports = {
+    rParamI(a, "first"),
+    rParamI(bcd, "second"),
+    rParamI(efghi, "third"),
+};
+#undef rObject
+
+//  sub <cap> <a> <bcd> <efghi>      subtree_serialize into an exact <cap>-byte block
+static void do_sub(const std::vector<std::string> &f)
+{
+    size_t cap = strtoull(f[1].c_str(), nullptr, 10);
+    SubObj o{atoi(f[2].c_str()), atoi(f[3].c_str()), atoi(f[4].c_str())};
+    std::vector<uint8_t> z(cap ? cap : 1, 0xAA);
+    ExactBuf B(z);
+    size_t r = cap ? subtree_serialize((char*)B.p, cap, &o, &sub_ports) : 0;
+    std::ostringstream os;
+    os << "r=" << r << " b=" << hex(B.p, cap);
+    puts(os.str().c_str());
+}
+
 static void on_alarm(int) { const char m[] = "HANG\n"; (void)!write(1, m, 5); _exit(3); }
 
 static void do_raw(const std::vector<std::string> &f)
@@ -404,6 +430,7 @@ int main()
         else if(f[0] == "pm" && f.size() >= 2) do_pm(f);
         else if(f[0] == "raw" && f.size() >= 2) do_raw(f);
         else if(f[0] == "rt" && f.size() >= 4) do_rt(f);
+        else if(f[0] == "sub" && f.size() >= 5) do_sub(f);
         else puts("BADCASE");
         fflush(stdout);
     }
